@@ -494,7 +494,7 @@ def r11_2_payload(ctx, prog, rule="R11.2"):
             ok = okid and okd
             key = "pending:%s" % ",".join(known)
         ctx.ob(rule, key, ok, "-> %s" % show(r)[:260], info["where"], replay=None if ok else pa.describe())
-    ctx.floor(rule, "next_timeout paths", n, 3)
+    ctx.floor(rule, "next_timeout paths", n, 2)      # empty / pending (one path when the saturating difference is used)
 
 
 def r11_3_order(ctx, prog, rule="R11.3"):
@@ -1059,7 +1059,15 @@ def r4_7_input_text(ctx, prog, rule="R4.7"):
                     [show(x)[:50] for x in cb], [show(x)[:60] for x in tv], [show(x)[:60] for x in wr]))
     ctx.ob(rule, "input-text:paths", not bad and n_ok >= 2, "; ".join(sorted(set(bad))[:2]) or "%d paths, %d successful: search stops at the first match" % (len(paths), n_ok),
            info["where"])
-    # structure of the loop: which edge of the type comparison updates which variable
+    # structure of the loop: which edge of the type comparison updates which variable.  The loop is in get_input_text or
+    # in a helper a refactoring split off it (then the helper returns the two offsets and get_input_text consumes them)
+    from ..absint import with_new_helpers
+    top = body
+    loopfns = [b2 for b2 in with_new_helpers(prog, top) if any(re.search(r"RawAttributesIter.*::next$", c.callee_path) for c in b2.calls())]
+    if len(loopfns) != 1:
+        ctx.anchor_missing(rule, "get_input_text: one function calling RawAttributesIter::next (%d)" % len(loopfns))
+        return
+    body = loopfns[0]
     cfg = cfg_of(body)
     heads = [c.block for c in body.calls() if re.search(r"RawAttributesIter.*::next$", c.callee_path)]
     if len(heads) != 1:
@@ -1144,15 +1152,48 @@ def r4_7_input_text(ctx, prog, rule="R4.7"):
                             locs |= new
                             changed = True
         return locs, src
-    cbb = [c for c in body.calls() if re.search(r"check_buffer_boundaries$", c.callee_path)]
+    cbb = [c for c in top.calls() if re.search(r"check_buffer_boundaries$", c.callee_path)]
     # the 16-bit value patched into the copy: the value operand of BigEndian::write_u16 / the receiver of u16::to_be_bytes
-    lens = [c.term["args"][1:2] for c in body.calls() if re.search(r"ByteOrder>::write_u16$", c.callee_path)] + \
-           [c.term["args"][0:1] for c in body.calls() if re.search(r"<impl u16>::to_be_bytes$", c.callee_path)]
+    lens = [c.term["args"][1:2] for c in top.calls() if re.search(r"ByteOrder>::write_u16$", c.callee_path)] + \
+           [c.term["args"][0:1] for c in top.calls() if re.search(r"<impl u16>::to_be_bytes$", c.callee_path)]
     if len(cbb) != 1 or len(lens) != 1:
         ctx.anchor_missing(rule, "get_input_text: one check_buffer_boundaries call and one 16-bit length patch (%d / %d)" % (len(cbb), len(lens)))
         return
-    _pl, pos_src = back_slice(operand_locals(cbb[0].term["args"][1:2]))
-    _ll, len_src = back_slice(operand_locals(lens[0]))
+    pos_seed, len_seed = operand_locals(cbb[0].term["args"][1:2]), operand_locals(lens[0])
+    if body is not top:
+        # which component of the helper's result feeds the prefix and which the length: read off the expression trees of
+        # get_input_text explored with the helper opaque (payload names .ok / .some / .<i> give the access path)
+        hp, hinfo = C.explore_fn(prog, top.path, "x", [r"\{closure"], opaque=["^" + re.escape(body.path) + "$"])
+        comp = {}
+        hname = C.short(body.path)
+        for pa in hp:
+            r = C.expr_of(pa, pa.ret)
+            if not (isinstance(r, tuple) and r[0] == "Result::Ok"):
+                continue
+            for e in pa.calls:
+                a = C.expr_of(pa, e[2])
+                which = "pos" if re.search(r"check_buffer_boundaries$", e[1]) else ("len" if re.search(r"ByteOrder>::write_u16$|copy_from_slice$", e[1]) else None)
+                if which is None:
+                    continue
+                for m in re.finditer(re.escape(repr(hname)) + r".*?'((?:\.ok|\.some|\.\d+|\.\*)+)'", repr(a[1] if len(a) > 1 else a)):
+                    idx = [x for x in m.group(1).split(".") if x.isdigit()]
+                    if idx:
+                        comp.setdefault(which, set()).add(int(idx[-1]))
+        if not (len(comp.get("pos", ())) == 1 and len(comp.get("len", ())) == 1):
+            ctx.anchor_missing(rule, "get_input_text: which results of %s are the prefix end and the length (%s)" % (hname, comp))
+            return
+        ip, il = comp["pos"].pop(), comp["len"].pop()
+        pos_seed, len_seed = set(), set()
+        for blk in body.blocks:
+            for st in blk["stmts"]:
+                if st["k"] == "assign" and st["rv"]["k"] == "aggregate" and st["rv"].get("agg") == "tuple" and len(st["rv"].get("ops", [])) == 2:
+                    pos_seed |= operand_locals(st["rv"]["ops"][ip])
+                    len_seed |= operand_locals(st["rv"]["ops"][il])
+        if not pos_seed or not len_seed:
+            ctx.anchor_missing(rule, "get_input_text: the pair returned by %s" % hname)
+            return
+    _pl, pos_src = back_slice(pos_seed)
+    _ll, len_src = back_slice(len_seed)
     # the switch that compares attr_type with raw_attr.attr_type: a switch inside the loop on an Eq of two u16
     sw = None
     for bi, blk in enumerate(body.blocks):
@@ -1187,7 +1228,7 @@ def r4_7_input_text(ctx, prog, rule="R4.7"):
     nxt = cfg.succ[head][0][0] if cfg.succ[head] else head
     cycle_free = head not in cfg.reachable(nxt, cut_blocks=pos_src - {head})
     first_needs_init = head in cfg.reachable(0, cut_blocks=pos_src)
-    init_ok = (not first_needs_init) or consts.get(frozenset(operand_locals(cbb[0].term["args"][1:2])), set()) <= {0}
+    init_ok = (not first_needs_init) or consts.get(frozenset(pos_seed), set()) <= {0}
     ok2 = bool(pos_src) and not (pos_src & on_true) and cycle_free and init_ok
     # after a match the loop head is not reached again
     ok3 = head not in cfg.reachable(true_t)
